@@ -126,14 +126,30 @@ REQ_FORMS = {
 
 
 def dir_comment(dirs, rot, case_rot=0):
-    """rot varies per part (comment prefix); the concrete spelling of a condition is fixed per doctest
-    (case_rot), otherwise -REQUIRES(x) would not name the condition +REQUIRES(x) added"""
+    """rot varies per part (comment prefix, spelling of the sign and case); the concrete spelling of a condition is fixed
+    per doctest (case_rot), otherwise -REQUIRES(x) would not name the condition +REQUIRES(x) added"""
     items = []
-    for d in dirs:
+    for n_, d in enumerate(dirs):
         n = d['n']
         txt = DIRTEXT.get(n) or REQ_FORMS[n][case_rot % len(REQ_FORMS[n])]
-        items.append(('+' if d['pos'] else '-') + txt)
-    prefix = ['# xdoctest: ', '# xdoc: ', '# doctest: '][rot % 3]
+        if n in ('REQa', 'REQb') and d['pos'] and (rot + n_) % 4 == 1:
+            # several conditions in one directive: a met one in front changes nothing
+            txt = txt.replace('REQUIRES(', 'REQUIRES(' + ['env:XDV_MET==1', 'module:os'][rot % 2] + ', ', 1)
+        if d['pos']:
+            form = (rot // 3 + n_) % 4
+            if form == 1 and n != 'BADARG':
+                txt = txt                       # the plus sign is optional
+            elif form == 2:
+                head, sep, tail = txt.partition('(')
+                txt = '+' + head.lower() + sep + tail      # names are case-insensitive
+            elif form == 3:
+                txt = '+ ' + txt                # blanks are ignored
+            else:
+                txt = '+' + txt
+        else:
+            txt = '-' + txt
+        items.append(txt)
+    prefix = ['# xdoctest: ', '# xdoc: ', '# doctest: ', '#xdoctest: ', '# XDOCTEST: ', '# doc: '][rot % 6]
     return prefix + ', '.join(items)
 
 
@@ -608,6 +624,10 @@ _JOB = {}
 
 def _replay_block(txt):
     st = parse_block(txt, _NEEDED + ('wtext',))
+    return _replay_state(st, txt)
+
+
+def _replay_state(st, txt):
     exp = expected_from_state(st)
     wants = [[tuple(t) for t in w] for w in st['wtext']]
     rot = (zlib.crc32(txt.encode()) + _JOB['seed']) % 100003
@@ -642,6 +662,12 @@ def replay_dump(out, dump_path, sig_fn, nontrivial_fn, extra_check=None, verbose
     _JOB['seed'] = common.seed()
     _JOB['extra_check'] = extra_check
     _JOB['verbose'] = verbose
+    _ensure_failmods()
+    blocks = list(terminal_blocks(dump_path))
+    return _replay_blocks(out, blocks, sig_fn, nontrivial_fn, limit)
+
+
+def _ensure_failmods():
     if 'failmods' not in _JOB or not os.path.isdir(os.path.dirname(_JOB['failmods'][0])):
         d = common.scratch_dir('xdv-failmod')
         _JOB['failmods'] = []
@@ -654,7 +680,9 @@ def replay_dump(out, dump_path, sig_fn, nontrivial_fn, extra_check=None, verbose
             with open(fp, 'w') as f:
                 f.write(body)
             _JOB['failmods'].append(fp)
-    blocks = list(terminal_blocks(dump_path))
+
+
+def _replay_blocks(out, blocks, sig_fn, nontrivial_fn, limit):
     if limit and len(blocks) > limit:
         import random
         rng = random.Random(common.seed())
@@ -677,6 +705,39 @@ def replay_dump(out, dump_path, sig_fn, nontrivial_fn, extra_check=None, verbose
     for k, v in results.items():
         out.extra['replayed_by_predicted_result'][k] = out.extra['replayed_by_predicted_result'].get(k, 0) + v
     return len(blocks)
+
+
+def _replay_record(raw):
+    """a terminal state printed by the Report action (simulation runs)"""
+    st = tlaval.parse_value(raw)
+    return _replay_state(st, raw)
+
+
+def simulate_replay(out, label, parts, minparts, maxparts, num, sig_fn=None, nontrivial_fn=lambda i: True, extra_check=None, verbose=0, **kw):
+    """random long programs: `tlc -simulate` over the same spec, every terminal state it reaches is printed, de-duplicated and replayed"""
+    cfg = docrun_cfg(parts, maxparts, DOCRUN_INVS, deviation=('Emit',), minparts=minparts, **kw)
+    res = common.run_tlc('MC_DocRun', cfg, simulate={'num': num}, depth=12 * maxparts + 10, seed_=common.seed() + 1, printed=True, timeout=1500)
+    if res.violated:
+        raise common.MachineryError('spec-level invariant %s violated in simulation (%s):\n%s' % (res.violated, label, res.stdout[-3000:]))
+    raws = sorted(set(common.iter_printed(res)))
+    out.tlc_cmds.append('simulate:%s: -simulate num=%d -depth %d  [%d distinct terminal states]' % (label, num, 12 * maxparts + 10, len(raws)))
+    _JOB['seed'] = common.seed()
+    _JOB['extra_check'] = extra_check
+    _JOB['verbose'] = verbose
+    _ensure_failmods()
+    infos = common.parallel_map(_replay_record, raws, chunk=50)
+    for info in infos:
+        out.traces += 1
+        out.evaluations += 1
+        if nontrivial_fn(info):
+            out.count_nontrivial(info['key'])
+        if 'bad' in info:
+            out.violation((sig_fn or default_sig)(info), {'text': info['text'], 'program': info['prog'], 'config': info['cfg'],
+                                                          'predicted': info['exp'], 'disagreements': info['bad'], 'rot': info['rot']})
+    out.extra['simulated_terminal_states_replayed[%s]' % label] = len(raws)
+    out.extra['simulated_max_parts[%s]' % label] = max([i['nparts'] for i in infos] or [0])
+    common.cleanup_scratch()
+    return len(raws)
 
 
 def docrun_cfg(parts, maxparts, invariants, tail='TailDefault', onerrors=('return',), modes=('native',), opts='NoOpts',
